@@ -34,6 +34,7 @@ class Engine(ExprMixin, StmtMixin, CallMixin, BuiltinMixin, Builtin2Mixin, SpecM
         self.cur_unit = None
         self.unit_env = {}
         self.unit_pre = None
+        self.unit_pre_len = 0
 
     def call_function(self, st, fv, args, node=None, run_async=False):
         fi = fv.fi
@@ -94,6 +95,114 @@ def term_to_py(m, t):
         return {'ref': m.eval(smt.r_of(v), model_completion=True).as_long()}
     except Exception:
         return str(v)
+
+
+def class_name_of(eng, m, st, t):
+    try:
+        rid = m.eval(smt.r_of(t), model_completion=True)
+        cid = m.eval(z3.Select(st.CL, rid), model_completion=True).as_long()
+        ci = eng.index.class_by_id.get(cid)
+        return ci.qualname if ci else f'class#{cid}'
+    except Exception as e:  # noqa
+        return '?'
+
+
+def array_points(m, arr):
+    """explicit points (index, value) of an array value in a model, plus the default (or None)"""
+    pts = []
+    default = None
+    e = arr
+    for _ in range(200):
+        if z3.is_store(e):
+            pts.append((e.arg(1), e.arg(2)))
+            e = e.arg(0)
+        elif z3.is_K(e):
+            default = e.arg(0)
+            break
+        elif z3.is_as_array(e):
+            fi = m.get_interp(z3.get_as_array_func(e))
+            if fi is None:
+                break
+            for i in range(fi.num_entries()):
+                en = fi.entry(i)
+                pts.append((en.arg_value(0), en.value()))
+            default = fi.else_value()
+            break
+        elif z3.is_quantifier(e) and e.is_lambda():
+            break
+        else:
+            break
+    return pts, default
+
+
+def describe_value(eng, m, st, t, depth=0, seen=None):
+    """Project a Val term of the counter-model onto a JSON-able description (objects with class and fields)"""
+    seen = seen if seen is not None else set()
+    v = term_to_py(m, t)
+    if not isinstance(v, dict):
+        return v
+    rid = v['ref']
+    if rid in eng.const_by_id:
+        return {'const': eng.const_by_id[rid]}
+    if rid in eng.index.class_by_id:
+        return {'class': eng.index.class_by_id[rid].qualname}
+    if rid in eng.index.func_by_id:
+        return {'function': eng.index.func_by_id[rid].qualname}
+    cname = class_name_of(eng, m, st, t)
+    d = {'ref': rid, 'class': cname}
+    if rid in seen or depth > 2:
+        return d
+    seen.add(rid)
+    R = z3.IntVal(rid)
+    if cname in ('list', 'tuple'):
+        sq = m.eval(z3.Select(st.LS, R), model_completion=True)
+        n = m.eval(z3.Length(sq), model_completion=True).as_long()
+        d['items'] = [describe_value(eng, m, st, m.eval(sq[i], model_completion=True), depth + 1, seen) for i in range(min(n, 6))]
+    elif cname in ('dict', 'set', 'frozenset'):
+        items = {}
+        cand = list(st.keys)
+        try:
+            pts, _dflt = array_points(m, m.eval(z3.Select(st.DH, R), model_completion=True))
+            cand += [p[0] for p in pts]
+        except Exception:  # noqa
+            pass
+        for k in cand:
+            kv = m.eval(k, model_completion=True)
+            if z3.is_true(m.eval(z3.Select(z3.Select(st.DH, R), kv), model_completion=True)):
+                items[json.dumps(describe_value(eng, m, st, kv, depth + 1, seen), sort_keys=True)] = describe_value(
+                    eng, m, st, m.eval(z3.Select(z3.Select(st.DV, R), kv), model_completion=True), depth + 1, seen)
+        d['items'] = items
+        d['len'] = m.eval(z3.Select(st.DL, R), model_completion=True).as_long()
+    else:
+        ci = eng.index.classes.get(cname)
+        if ci is not None:
+            names = set()
+            for c in ci.mro:
+                names |= c.inst_attrs
+            fields = {}
+            for n in sorted(names):
+                fields[n] = describe_value(eng, m, st, m.eval(eng.hload(st, R, n), model_completion=True), depth + 1, seen)
+            d['fields'] = fields
+            if any(c.qualname == 'BaseException' for c in ci.mro):
+                pass
+    return d
+
+
+def describe_counterexample(eng, ob):
+    m = ob.verdict.model
+    if m is None:
+        return None
+    pre = eng.unit_pre
+    out = {'inputs': {}, 'obligation': ob.name}
+    for name, v in eng.unit_env.items():
+        if name.startswith('__'):
+            continue
+        if isinstance(v, SV):
+            out['inputs'][name] = describe_value(eng, m, pre, v.term)
+    exc = getattr(ob, 'exc', None)
+    if exc is not None and isinstance(exc, SV):
+        out['escaping_exception'] = class_name_of(eng, m, ob.st, exc.term)
+    return out
 
 
 def discharge(eng: Engine, ob: Obligation, use_cvc5=True):
@@ -204,6 +313,11 @@ def main(argv):
                 print(f'   {tag:8s} {ob.name} [{ob.kind}] {v.backend} {v.seconds:.2f}s {ob.detail[:100]}')
             if not ob.proved:
                 rc = 1
+                if ob.refuted and not ob.want_sat and hasattr(r, 'engine'):
+                    try:
+                        print('      counterexample:', json.dumps(describe_counterexample(r.engine, ob))[:1500])
+                    except Exception as e:
+                        print('      (counterexample dump failed:', e, ')')
         if a.v:
             for x in r.assumptions:
                 print('   assume:', x)
